@@ -382,10 +382,9 @@ async fn run_seq(seq: &Seq) -> SeqOutcome {
 /// limiter settings of the configuration file must be the ones in force.
 async fn config_wiring(report: &mut Report) {
     use passage::config::{Config, ProxyProtocol, RateLimiter as LimiterConfig};
-    for (allow_v1, allow_v2) in [(true, false), (false, true), (true, true)] {
+    for (allow_v1, allow_v2, limit) in [(true, false, 2usize), (false, true, 2), (true, true, 2), (true, true, 0), (true, true, 1)] {
         let port = tcp::free_port();
         let addr: SocketAddr = format!("127.0.0.1:{port}").parse().expect("addr");
-        let limit = 2usize;
         let config = Config {
             address: addr.to_string(),
             timeout: 3,
